@@ -1546,6 +1546,11 @@ pub uninterp spec fn exports_view(e: &Exports) -> Map<Seq<char>, Handle>;
 #[verifier::external_body] pub fn register_export(e: &mut Exports, name: VString, pair: Handle) -> (r: Result<(), VErr>)
     ensures r is Ok <==> !exports_view(old(e)).contains_key(text_of(&name)),
             r is Ok ==> exports_view(final(e)) == exports_view(old(e)).insert(text_of(&name), pair), r is Err ==> exports_view(final(e)) == exports_view(old(e)) { unimplemented!() }
+// MScriptFile::replace_export (through Ctx::register_export_replacing): the registration under that name, old or not, is this one; fails only when
+// the executing file is gone (`could not upgrade reference to file`)
+pub uninterp spec fn registration_possible(e: &Exports) -> bool;
+#[verifier::external_body] pub fn register_export_replacing(e: &mut Exports, name: VString, pair: Handle) -> (r: Result<(), VErr>)
+    ensures r is Ok <==> registration_possible(old(e)), r is Ok ==> exports_view(final(e)) == exports_view(old(e)).insert(text_of(&name), pair), r is Err ==> exports_view(final(e)) == exports_view(old(e)) { unimplemented!() }
 #[verifier::external_body] pub fn load_self_export_of(e: &Exports, name: &VString) -> (r: Option<Handle>)
     ensures r is Some <==> exports_view(e).contains_key(text_of(name)), r is Some ==> cell_id(&r->Some_0) == cell_id(&exports_view(e)[text_of(name)]) { unimplemented!() }
 pub uninterp spec fn module_value(e: &Exports) -> Primitive;                  // Ctx::get_file_module: the module value of the executing file
@@ -1586,6 +1591,7 @@ def build_object_handlers(repo):
         Rule("R9", "args . get ( 1 ) . unwrap_or ( name )", "args_get_or ( args , 1 , name )", why="slice::get(..).unwrap_or(default)"),
         Rule("R6", "PrimitiveFlagsPair :: new ( $$a )", "new_pair ( $$a )", why="a NEW cell"),
         Rule("R10", "ctx . register_export ( $$a ) ?", "register_export ( exports , $$a ) ?", why="the executing file's export table as explicit state (R10)"),
+        Rule("R10", "ctx . register_export_replacing ( $$a ) ?", "register_export_replacing ( exports , $$a ) ?", why="the executing file's export table as explicit state (R10)"),
         Rule("R1", "export_name . to_owned ( )", "clone_vs ( export_name )", why="String clone"),
         Rule("R1", "variable . clone ( )", "clone_handle ( & variable )", why="handle clone: the same cell"),
         Rule("R1", "Cow :: Owned ( name . to_owned ( ) )", "clone_vs ( name )", why="Cow<str> name"),
@@ -1652,19 +1658,21 @@ pub fn load_self_export(ctx: &mut Ctx, args: &Vec<VString>, exports: &Exports) -
 {render(hs['load_self_export'], 1)}
 }}
 //@ OBL C11.handler.export_special
-// `export class C` (and other special exports): the operand's VALUE goes into ONE new read-only cell; that cell is registered in the file's export
-// table under the export name (args[1], else the name) -- once -- and the local name is bound to the same cell
+// a class declaration: the operand's VALUE goes into ONE new read-only cell; that cell is registered in the file's export table under the export
+// name (args[1], else the name) and the local name is bound to the same cell.  A declaration may be executed MORE THAN ONCE (a class declared
+// inside a function is declared on every call): an earlier registration of the name is no reason to fail -- the new one replaces it (D98)
 pub fn export_special(ctx: &mut Ctx, args: &Vec<VString>, exports: &mut Exports) -> (r: Result<(), VErr>)
     ensures
         r is Ok ==> args@.len() >= 1 && old(ctx).stack@.len() == 1 && moved_out(old(ctx).stack@[0]) is Some && final(ctx).stack@.len() == 0 && ({{
             let en = text_of(if args@.len() > 1 {{ &args@[1] }} else {{ &args@[0] }});
-            &&& !exports_view(old(exports)).contains_key(en)
             &&& exports_view(final(exports)).dom() == exports_view(old(exports)).dom().insert(en)
-            &&& (forall|k: Seq<char>| exports_view(old(exports)).contains_key(k) ==> exports_view(final(exports))[k] == exports_view(old(exports))[k])
+            &&& (forall|k: Seq<char>| k != en && exports_view(old(exports)).contains_key(k) ==> exports_view(final(exports))[k] == exports_view(old(exports))[k])
             &&& cell_value(cell_id(&exports_view(final(exports))[en])) == moved_out(old(ctx).stack@[0])->Some_0 && cell_read_only(cell_id(&exports_view(final(exports))[en]))
             &&& refs(&final(ctx).frames) == refs(&old(ctx).frames).push((text_of(&args@[0]), cell_id(&exports_view(final(exports))[en])))
         }}),
         r is Err ==> refs(&final(ctx).frames) == refs(&old(ctx).frames),
+        // whether the name is already registered plays no part in success: only the shape of the instruction and the movability of the value do
+        (args@.len() >= 1 && old(ctx).stack@.len() == 1 && moved_out(old(ctx).stack@[0]) is Some && registration_possible(old(exports))) ==> r is Ok,
 {{
 {render(hs['export_special'], 1)}
 }}
